@@ -25,6 +25,7 @@ TApi     == IsEvent("api") /\ T(Ev.now) = now /\ Api(Ev.op, T(Ev.d), Ev.n) /\ UN
 TApiRet  == IsEvent("apiret") /\ ApiRet(Ev.op, Ev.res, T(Ev.now)) /\ UNCHANGED scn
 TWaitpid == IsEvent("waitpid") /\ Waitpid(Ev.nohang, Ev.ret, IF Ev.ret = VPid THEN St(Ev.st) ELSE NoSt) /\ UNCHANGED scn
 TWEintr  == IsEvent("waitpid_eintr") /\ WaitpidEintr(Ev.nohang) /\ UNCHANGED scn
+TWNoThr  == IsEvent("waitpid_nothread") /\ WaitpidNoThread(Ev.nohang) /\ UNCHANGED scn
 TWBlock  == IsEvent("wait_block") /\ WaitBlock /\ UNCHANGED scn
 THang    == IsEvent("hang_wait") /\ WaitBlock /\ UNCHANGED scn
 TKill    == IsEvent("kill") /\ Kill(Ev.pid, Ev.sig, Ev.ret) /\ UNCHANGED scn
@@ -39,7 +40,7 @@ TEnd ==
   /\ UNCHANGED <<pvars, scn>>
 
 TraceNext ==
-  \/ TReset \/ TExit \/ TXreap \/ TReuse \/ TDelay \/ TApi \/ TApiRet \/ TWaitpid \/ TWEintr \/ TWBlock \/ THang
+  \/ TReset \/ TExit \/ TXreap \/ TReuse \/ TDelay \/ TApi \/ TApiRet \/ TWaitpid \/ TWEintr \/ TWNoThr \/ TWBlock \/ THang
   \/ TKill \/ TFKill \/ TFWait \/ TSleep \/ TBkRun \/ TRunaway \/ TEnd
 
 TraceSpec == TraceInit /\ [][TraceNext]_tvars
